@@ -346,6 +346,8 @@ class Gen:
         rng = self.rng
         if ty is not None and ty[0] == "rec" and ty[2] not in (None, "dyn") and rng.chance(1, 2):
             return self.nest(e, [l for l, _ in ty[1]])
+        if ty is not None and is_container(ty) and rng.chance(1, 3):
+            return through_contract(self, e, ty, rng.range(1, 2))
         c = rng.below(10)
         if c == 0:
             y = self.var("z")
@@ -593,6 +595,132 @@ def ctx_case(rng, g):
     return {"sx": e, "klass": "ctx-" + mode, "prim": name, "feat": ["higher-rank", "type-var"]}
 
 
+# ------------------------------------------------------------------ re-applied container contracts
+
+def close_over(g, t):
+    """the same shape as t with every outer type / row variable replaced by a variable quantified here:
+    -> closed type (nested forall ... t')"""
+    ren = {}
+
+    def go(u):
+        k = u[0]
+        if k == "tv":
+            if u[1] not in ren:
+                ren[u[1]] = (g.var("zb"), "t")
+            return ("tv", ren[u[1]][0])
+        if k == "fun":
+            return ("fun", go(u[1]), go(u[2]))
+        if k == "arr":
+            return ("arr", go(u[1]))
+        if k == "rec":
+            tail = u[2]
+            if tail not in (None, "dyn"):
+                if tail not in ren:
+                    ren[tail] = (g.var("zs"), "r")
+                tail = ren[tail][0]
+            return ("rec", [(l, go(x)) for l, x in u[1]], tail)
+        return u
+    body = go(t)
+    T = ("fun", body, body)
+    for old, (new, kind) in ren.items():
+        T = ("forall", new, kind, T)
+    return T
+
+
+def is_container(t):
+    """a container type whose elements mention a quantified variable (and no function inside)"""
+    return t[0] in ("arr", "rec") and mentions_var(t) and not has_arrow(t) and not _has_forall(t)
+
+
+def _has_forall(t):
+    k = t[0]
+    if k == "forall":
+        return True
+    if k == "fun":
+        return _has_forall(t[1]) or _has_forall(t[2])
+    if k == "arr":
+        return _has_forall(t[1])
+    if k == "rec":
+        return any(_has_forall(x) for _, x in t[1])
+    return False
+
+
+def through_contract(g, e, t, times=1):
+    """e passed `times` times through an annotated identity whose type has the shape of t: the container
+    contracts (Array _, record fields) of that annotation are applied again to a value that already carries
+    the outer ones"""
+    T = ty_sx(close_over(g, t))
+    z = g.var("z")
+    idf = "(ann %s (lam %s (v %s)))" % (T, z, z)
+    if times == 1:
+        return "(app %s %s)" % (idf, e)
+    f = g.var("w")
+    out = e
+    for _ in range(times):
+        out = "(app (v %s) %s)" % (f, out)
+    return "(let %s %s %s)" % (f, idf, out)
+
+
+TWICE_SHAPES = [
+    lambda a, r: ("arr", tv(a)),
+    lambda a, r: ("arr", ("arr", tv(a))),
+    lambda a, r: ("rec", [("fa", ("arr", tv(a))), ("fb", NUM)], None),
+    lambda a, r: ("arr", ("rec", [("fa", tv(a))], None)),
+    lambda a, r: ("rec", [("fa", ("arr", tv(a)))], r),
+    lambda a, r: ("rec", [("fa", tv(a)), ("fc", ("arr", ("arr", tv(a))))], None),
+]
+
+
+def twice_case(rng, g):
+    """one contracted function, applied to its own result (the same contract occurrences are applied again
+    to a value that already carries them): `f true (f true x)` is parametric, `f false (f true x)` inspects an
+    element in the outer call and must be blamed"""
+    a, r = g.var("a"), g.var("r")
+    shape = rng.choice(TWICE_SHAPES)
+    CT = shape(a, r)
+    uses_row = CT[0] == "rec" and CT[2] == r
+    extra = rng.chance(1, 3)
+    spine = [("q", a, "t")] + ([("q", r, "r")] if uses_row else []) + [("a", BOOL)] + ([("a", NUM)] if extra else []) + [("a", CT)]
+    T = Gen.build_type(spine, CT)
+    b, x = g.var("x"), g.var("x")
+    n = g.var("x")
+    env = [(x, CT, True)]
+    body = g.synth(env, CT, 2)
+    if body is None:
+        return None
+    atoms = [(e, s) for e, s in g.atoms(env) if s[0] == "tv"]
+    if not atoms:
+        return None
+    m = {a: rng.choice([NUM, STR, BOOL])}
+    if uses_row:
+        m[r] = ("row", [("ta", NUM)])
+    val = g.value(subst(CT, m), 2)
+    mode = rng.weighted([("inspect", 3), ("parametric", 2)])
+    if mode == "inspect":
+        e, _ = rng.choice(atoms)
+        name, tmpl = rng.choice(INSPECTORS)
+        other = "(seq %s %s)" % (tmpl.replace("E", e), body)
+    else:
+        name, other = "-", body
+    impl = "(lam %s %s(lam %s (if (v %s) %s %s))%s)" % (b, "(lam %s " % n if extra else "", x, b, body, other, ")" if extra else "")
+    f = g.var("f")
+    num = " (n 3)" if extra else ""
+
+    def call(flag, arg):
+        e = "(app (v %s) (b %s))" % (f, flag)
+        if extra:
+            e = "(app %s (n 3))" % e
+        return "(app %s %s)" % (e, arg)
+    depth = rng.range(1, 2)
+    inner = val
+    for _ in range(depth):
+        inner = call("t", inner)
+    prog = "(let %s (ann %s %s) %s)" % (f, ty_sx(T), impl, call("f" if mode == "inspect" else "t", inner))
+    return {"sx": prog, "klass": "inspect" if mode == "inspect" else "parametric",
+            "prim": ("reapplied+" + name) if mode == "inspect" else "reapplied", "feat": features(T) + ["reapplied-contract"]}
+
+
+
 def make_cases(rng, n, want_alias=False):
     """-> list of dict(sx, klass, prim, note)"""
     out = []
@@ -600,6 +728,11 @@ def make_cases(rng, n, want_alias=False):
     while len(out) < n:
         if rng.chance(1, 25):
             out.append(ctx_case(rng, g))
+            continue
+        if rng.chance(1, 12):
+            tc = twice_case(rng, g)
+            if tc is not None:
+                out.append(tc)
             continue
         c = g.case()
         if c is None:
@@ -609,10 +742,26 @@ def make_cases(rng, n, want_alias=False):
         atoms = g.atoms(c["env"])
         var_atoms = [(e, s) for e, s in atoms if s[0] == "tv"]
         row_atoms = [(e, s) for e, s in atoms if s[0] == "rec" and s[2] not in (None, "dyn")]
+        cont_atoms = [(e, s) for e, s in atoms if is_container(s)]
         kind = rng.weighted([("parametric", 5), ("inspect", 6), ("noninspect", 2), ("fabricate", 3),
-                             ("tail", 5), ("launder", 1), ("alias", 3)])
+                             ("tail", 5), ("launder", 1), ("alias", 3), ("recontract", 3)])
         if kind == "parametric":
             out.append({"sx": base, "klass": "parametric", "prim": "-"})
+        elif kind == "recontract" and cont_atoms:
+            # a container that already carries the outer contract goes (once or twice) through another
+            # annotated identity of the same shape; then an element is inspected / only its spine is used
+            e, s = rng.choice(cont_atoms)
+            w = through_contract(g, e, s, rng.range(1, 2))
+            elems = [(pe, ps) for pe, ps in g.paths(w, s, 3, c["env"], True) if ps[0] == "tv"]
+            if elems and rng.chance(2, 3):
+                pe, _ = rng.choice(elems)
+                name, tmpl = rng.choice(INSPECTORS)
+                body = "(seq %s %s)" % (tmpl.replace("E", pe), c["body"])
+                out.append({"sx": g.assemble(c, body), "klass": "inspect", "prim": "recontract+" + name})
+            else:
+                use = "(o1 length %s)" % w if s[0] == "arr" else "(o1 fields %s)" % w
+                body = "(seq %s %s)" % (use, c["body"])
+                out.append({"sx": g.assemble(c, body), "klass": "parametric", "prim": "recontract"})
         elif kind == "inspect" and var_atoms:
             e, s = rng.choice(var_atoms)
             name, tmpl = rng.choice(INSPECTORS)
@@ -810,4 +959,69 @@ def free_cases(rng, n):
     out = []
     for _ in range(n):
         out.append({"sx": g.term(rng.range(2, 4), []), "klass": "free", "prim": "-", "feat": ["free-form"]})
+    return out
+
+
+# ------------------------------------------------------------------ raw Nickel stream (direct oracle only)
+# Constructs outside the model language: `let rec` (a contracted function that calls itself, so the same
+# contract occurrences are re-applied to values that already carry them) and dictionary types.
+
+RAW_CONTAINERS = [
+    # (type over the variable α, value, element path over L, spine-only use over L)
+    ("Array α", "[1, 2]", "(%array/at% L 0)", "(%array/length% L)"),
+    ("Array (Array α)", "[[1, 2], [3]]", "(%array/at% (%array/at% L 0) 0)", "(%array/length% L)"),
+    ("{_ : α}", "{k = 1, j = 2}", "(L.k)", "(%record/fields% L)"),
+    ("{fa : Array α, fb : Number}", "{fa = [1, 2], fb = 3}", "(%array/at% L.fa 0)", "(%array/length% L.fa)"),
+    ("Array {_ : α}", "[{k = 1}, {k = 2}]", "((%array/at% L 0).k)", "(%array/length% L)"),
+    ("{_ : Array α}", "{k = [1, 2]}", "(%array/at% L.k 0)", "(%record/fields% L)"),
+    ("{fa : {_ : α}}", "{fa = {k = 1}}", "(L.fa.k)", "(%record/fields% L.fa)"),
+    ("Array {fa : α}", "[{fa = 1}, {fa = 2}]", "((%array/at% L 0).fa)", "(%array/length% L)"),
+    # (`{_ | a}` with a type variable is rejected by the typechecker: not in the quantifier)
+]
+RAW_INSPECTORS = [
+    ("eq", "(E == 1)"), ("add", "(E + 1)"), ("typeof", "(%typeof% E == 'Number)"), ("interp", '"%{E}"'),
+    ("lt", "(E < 2)"), ("if", "(if E == 1 then 1 else 2)"), ("to_string", "(std.to_string E)"),
+]
+RAW_SHAPES = [
+    # name, program over @T (type with a), @TB (same with b), @V, @EL(x), @INSP(e); ⟦..} is the annotation
+    ("rec-reentrant",
+     "let rec f ⟦forall a. Bool -> @T -> @T⟧ = fun b l => if b then l else let r = f true l in %seq% @I(r) r in f false @V"),
+    ("rec-countdown",
+     "let rec f ⟦forall a. Number -> @T -> @T⟧ = fun n l => if n == 0 then %seq% @I(l) l else f (n - 1) l in f 2 @V"),
+    ("rec-inspect-then-recurse",
+     "let rec f ⟦forall a. Number -> @T -> @T⟧ = fun n l => if n == 0 then l else %seq% @I(l) (f (n - 1) l) in f 1 (f 0 @V)"),
+    ("own-result",
+     "let f ⟦forall a. Bool -> @T -> @T⟧ = fun b l => if b then l else %seq% @I(l) l in f false (f true @V)"),
+    ("own-result-twice",
+     "let f ⟦forall a. Bool -> @T -> @T⟧ = fun b l => if b then l else %seq% @I(l) l in f false (f true (f true @V))"),
+    ("other-function-inside",
+     "let id ⟦forall b. @TB -> @TB⟧ = fun l => l in let g ⟦forall a. @T -> Dyn⟧ = fun l => @I((id l)) in g @V"),
+    ("other-function-outside",
+     "let id ⟦forall b. @TB -> @TB⟧ = fun l => l in let g ⟦forall a. @T -> Dyn⟧ = fun l => @I(l) in g (id (id @V))"),
+    ("mutual",
+     "let rec f ⟦forall a. Bool -> @T -> @T⟧ = fun b l => if b then l else g l, g ⟦forall a. @T -> @T⟧ = fun l => let r = f true l in %seq% @I(r) r in f false @V"),
+]
+
+
+def raw_cases(rng, n):
+    out = []
+    for _ in range(n):
+        ct, val, el, spine = rng.choice(RAW_CONTAINERS)
+        sname, shape = rng.choice(RAW_SHAPES)
+        parametric = rng.chance(1, 3)
+        if parametric:
+            iname, use = "spine", spine
+        else:
+            iname, itmpl = rng.choice(RAW_INSPECTORS)
+            use = itmpl.replace("E", el)
+        prog = shape.replace("@TB", ct.replace("α", "b")).replace("@T", ct.replace("α", "a")).replace("@V", val)
+        # @I(x): the use applied to x
+        import re as _re
+        prog = _re.sub(r"@I\(((?:[^()]|\([^()]*\))*)\)", lambda m: use.replace("L", m.group(1)), prog)
+        contracted = _re.sub(r"⟦([^⟧]*)⟧", lambda m: "| " + m.group(1), prog)
+        bare = _re.sub(r"⟦([^⟧]*)⟧", "", prog)
+        out.append({"raw": contracted, "raw_bare": bare, "sx": contracted,
+                    "klass": "parametric" if parametric else "inspect",
+                    "prim": "raw:%s:%s:%s" % (sname, ct.replace(" ", "").replace("α", "a"), iname),
+                    "feat": ["raw-nickel", "reapplied-contract", "let-rec" if "rec" in shape[:8] else "let"]})
     return out
